@@ -132,6 +132,12 @@ MarkAtOccurrence(ts, p, nth, before) ==
                 pos == IF before THEN r[2] - 1 ELSE r[2] + Len(p) - 1
             IN Splice(ts, r[1], <<T(SubSeq(s, 1, pos)), E("bm", 0), T(SubSeq(s, pos + 1, Len(s)))>>)
 
+(* content = regex: a start mark before and an end mark after the nth occurrence - both or nothing. *)
+(* (the end mark first: it does not move the occurrence, which stays whole at the end of its text)  *)
+MarkContent(ts, p, nth) ==
+    IF OccSlot(ts, p, 1, nth)[1] = 0 THEN ts
+    ELSE MarkAtOccurrence(MarkAtOccurrence(ts, p, nth, FALSE), p, nth, TRUE)
+
 MarkSlotPosition(ts, position) ==
     LET cand == {i \in Slots(ts) : CharsBefore(ts, i) + Len(ts[i].s) >= position}
     IN IF cand = {} THEN 0 ELSE CHOOSE i \in cand : \A j \in cand : i <= j
@@ -209,6 +215,7 @@ ApplyOp(ts, o) ==
       [] o.op = "mark_occurrence" -> MarkAtOccurrence(ts, o.p, o.nth, o.before)
       [] o.op = "mark_position"   -> MarkAtPosition(ts, o.pos)
       [] o.op = "mark_range"      -> MarkRange(ts, o.a, o.b)
+      [] o.op = "mark_content"    -> MarkContent(ts, o.p, o.nth)
       [] o.op = "strip_tags"      -> StripTags(ts, o.tag, <<>>)
       [] o.op = "delete"          -> DeleteAt(ts, o.i)
 
